@@ -544,6 +544,16 @@ def gen_ops(cat, rng, tier):
             add('when2', ['c09.when2', a, b] + ta + box_for(b, kb, used), used)
     # lane whenv: When(x1..xk) on func(xs ...T) int — every value converted at the element type
     for e in cat.variadics:
+        # directed: the slice type []e itself given as a When value.  For a non-interface e it cannot be one element (other size: must be
+        # rejected, never spread); for `...interface{}` a []interface{} IS one element: accepted, and the call made with that same slice as
+        # the single variadic element must match.  Alone and after a leading element.
+        sl = cat.by_ty.get(repr(('slice', cat.types[e]['ty'])))
+        if sl is not None:
+            for ident in ('r1', 'r2', 'r4', 'z'):
+                add('whenv', ['c09.whenv', e, '1', sl, ident], [e, sl])
+                lead_used = [e, sl]
+                lead = box_for(e, 'same', lead_used)
+                add('whenv', ['c09.whenv', e, '2'] + lead + [sl, ident], lead_used)
         for _ in range(40 * reps):
             used = [e]
             k = rng.below(4)
